@@ -35,7 +35,8 @@ CASE_TIMEOUT = 900
 RPCS = [1, 3, 6]
 OPS = [("open", uc, cc, r) for uc in (True, False) for cc in (True, False) for r in RPCS] + \
       [("cli", None, None, None), ("del-user", None, None, None), ("del-adj", None, None, None), ("wipe-user-dir", None, None, None),
-       ("wipe-cache-root", None, None, None), ("tear-user", None, None, None), ("tear-adj", None, None, None), ("cli-sub", None, None, None)]
+       ("wipe-cache-root", None, None, None), ("tear-user", None, None, None), ("tear-adj", None, None, None),
+       ("del-user-last", None, None, None), ("del-adj-last", None, None, None), ("tear-user-last", None, None, None), ("cli-sub", None, None, None)]
 _O = lambda uc, cc, r: ("open", uc, cc, r)  # noqa: E731
 _X = lambda k: (k, None, None, None)  # noqa: E731
 SCRIPTS = [
@@ -47,6 +48,8 @@ SCRIPTS = [
     [_O(False, True, 3), _X("tear-user"), _O(True, False, 3), _O(True, False, 1), _O(True, True, 1), _O(True, False, 6)],
     [_X("cli"), _X("tear-adj"), _O(True, False, 1), _O(True, False, 3), _X("cli"), _O(True, False, 3)],
     [_X("cli"), _O(False, True, 1), _X("tear-adj"), _X("tear-user"), _O(True, False, 6), _X("del-user"), _O(True, False, 6)],
+    [_O(False, True, 3), _X("del-user-last"), _O(True, False, 3), _O(True, True, 1), _O(True, False, 6)],
+    [_X("cli"), _X("del-adj-last"), _O(True, False, 1), _O(True, True, 3), _X("tear-user-last"), _O(True, False, 3)],
 ]
 NRAND = {"quick": 48, "thorough": 1500}
 LEN = {"quick": 8, "thorough": 30}
@@ -201,6 +204,17 @@ def step(W, op, obs, violations, kept, tier):
     if kind in ("del-user", "del-adj"):
         for p in (W.user if kind == "del-user" else W.adj):
             if os.path.exists(p):
+                os.remove(p)
+        return f"{kind}|{before_state}"
+    if kind in ("del-user-last", "del-adj-last", "tear-user-last"):
+        # partial cache states: only the LAST image of the product loses (or tears) its index, the earlier ones keep theirs
+        p = (W.adj if kind == "del-adj-last" else W.user)[-1]
+        if os.path.exists(p):
+            if kind.startswith("tear"):
+                b = open(p, "rb").read()
+                with open(p, "wb") as f:
+                    f.write(b[: len(b) // 3])
+            else:
                 os.remove(p)
         return f"{kind}|{before_state}"
     if kind in ("tear-user", "tear-adj"):
